@@ -49,6 +49,12 @@ func main() {
 		}
 		return
 	}
+	if *c10Worker != "" {
+		os.Exit(c10WorkerMain(*c10Worker, *tier))
+	}
+	if *c10One != "" {
+		os.Exit(c10CaseMain(*c10One))
+	}
 	c, ok := checks[*id]
 	if !ok {
 		fmt.Fprintf(os.Stderr, "unknown check %q\n", *id)
